@@ -127,8 +127,9 @@ def _rca(spec, j):
   from metric_learn import RCA, RCA_Supervised
   from metric_learn.constraints import Constraints
   rng = rng_for('c9rca', spec['seed'], spec['i'])
-  ds = D.well_formed(rng, dmax=7, variant=['plain', 'unbalanced', 'offset']
-                     [spec['i'] % 3])
+  ds = D.well_formed(rng, dmax=7, variant=['plain', 'unbalanced', 'offset',
+                                           'int', 'illcond'][spec['i'] % 5],
+                     labels=['range', 'sparse'][spec['i'] % 2])
   X, y, d = ds['X'], ds['y'], ds['d']
   k = [None, None, 1, max(1, d - 1), int(rng.randint(1, d + 1))][spec['i'] % 5]
   det = {'d': d, 'n': ds['n'], 'n_components': k,
@@ -255,8 +256,12 @@ def _lfda_case(spec, j):
   from metric_learn import LFDA
   rng = rng_for('c9lfda', spec['seed'], spec['i'])
   i = spec['i']
-  variant = ['plain', 'unbalanced', 'plain', 'offset'][i % 4]
-  ds = D.well_formed(rng, dmax=6, variant=variant, nmax=60)
+  variant = ['plain', 'unbalanced', 'plain', 'offset', 'int', 'illcond',
+             'small_scale'][i % 7]
+  ds = D.well_formed(rng, dmax=6, variant=variant, nmax=60,
+                     n_classes=[None, 2][i % 5 == 4],
+                     labels=['range', 'sparse'][i % 2])
+  ds['X'] = np.asarray(ds['X'], dtype=float) if i % 3 else ds['X']
   X, y, d, n = ds['X'], ds['y'], ds['d'], ds['n']
   emb = ['weighted', 'orthonormalized', 'plain'][i % 3]
   kopts = [None, 1, 2, max(1, d - 1), d, d + 2]
